@@ -53,6 +53,9 @@ type c03script struct {
 	// behind its last packet, in the same write of the server - so that the bytes read ahead with the
 	// end of the response belong to the next exchange.
 	earlyPong bool
+	// C08: Do runs under a deadline that lies 30 ms behind the arrival of the last packet (idle gaps
+	// included): every packet is in time, the last read timeouts are reported close to the deadline.
+	tight bool
 }
 
 func (s c03script) methodOf(i int) byte {
@@ -482,6 +485,17 @@ func runScriptOpts(rt *rapid.T, s c03script, segsFor func(i int, n int) []int, g
 		ctx, cancel = context.WithTimeout(ctx, time.Hour)
 		defer cancel()
 	}
+	if s.tight && len(s.pauseIn) == 0 {
+		var total time.Duration
+		if gapAfter != nil {
+			for i := range s.items {
+				total += gapAfter(i)
+			}
+		}
+		var cancel context.CancelFunc
+		ctx, cancel = context.WithTimeout(ctx, total+30*time.Millisecond)
+		defer cancel()
+	}
 	out.err = doBounded(rt, e, client, ctx, q, 5*time.Minute, "script "+s.describe())
 	_ = client
 	return out, e
@@ -620,7 +634,8 @@ func TestC08ClientSegmentation(t *testing.T) {
 			pauses[rapid.IntRange(0, len(s.items)-1).Draw(rt, "paused-item")] = rapid.SampledFrom([]int{0, 1, 500, 999, 1000, rapid.IntRange(2, 998).Draw(rt, "pm")}).Draw(rt, "pause-at")
 		}
 		splitAt := rapid.IntRange(1, 40).Draw(rt, "split")
-		randSegs := rapid.SliceOfN(rapid.IntRange(1, 30), 1, 10).Draw(rt, "segs")
+		randSegs := rapid.SliceOfN(rapid.IntRange(0, 30), 1, 10).Draw(rt, "segs") // 0 = an empty read (a zero-length write of the peer)
+		tightDeadline := rapid.IntRange(0, 2).Draw(rt, "deadline-just-behind-the-last-packet") == 0
 		gap := rapid.SampledFrom([]time.Duration{60 * time.Millisecond, 101 * time.Millisecond, 350 * time.Millisecond}).Draw(rt, "gap")
 		type result struct {
 			out      c03outcome
@@ -653,9 +668,15 @@ func TestC08ClientSegmentation(t *testing.T) {
 		case "random":
 			got = run(func(i, n int) []int { return randSegs }, nil, false)
 		case "gaps":
+			s.tight = tightDeadline
+			base = run(nil, nil, false)
 			got = run(nil, func(i int) time.Duration { return gap }, true)
+			s.tight = false
 		case "gaps+one-byte":
+			s.tight = tightDeadline
+			base = run(nil, nil, false)
 			got = run(func(i, n int) []int { return ones(n) }, func(i int) time.Duration { return gap }, true)
+			s.tight = false
 		case "pause-inside-packet":
 			// The bytes of a packet arrive in two pieces with a pause longer than the read timeout
 			// in between (and, one run in two, idle gaps between packets as well).
